@@ -69,6 +69,7 @@ type Node struct {
 
 	smu          sync.Mutex
 	lastSnapNano int64
+	lastISNano   int64
 	crashInfo    string // description of the last storage-boundary crash
 	crashMid     bool
 	everStarted  bool
@@ -116,6 +117,10 @@ type Cluster struct {
 	lastConf   map[string]string
 
 	Script []Action
+
+	shutdownDone bool
+	// Hang is set when the case could not be shut down (a Stop() that never returns, ...)
+	Hang string
 
 	// ErrStart collects NewRaft/Start failures (C13/C14 oracle input)
 	StartErrors []string
@@ -592,16 +597,28 @@ func (c *Cluster) onApply(in *Instance, index, term, h uint64) {
 // Shutdown stops everything so that the bubble can end: parked messages are
 // lost, nodes stopped, background goroutines awaited.
 func (c *Cluster) Shutdown() {
+	if c.shutdownDone {
+		return
+	}
+	c.shutdownDone = true
 	for _, id := range c.Order {
 		c.net.SetLinkAllFrom(id, Drop, c.Order)
 	}
 	c.net.ReleaseAll(false, nil)
+	type stopping struct {
+		id string
+		in *Instance
+	}
+	var stops []stopping
 	for _, id := range c.Order {
 		n := c.Nodes[id]
-		if n.cur != nil && n.cur.started.Load() && !n.cur.stopping.Load() && !n.cur.dead.Load() {
+		if n.cur != nil && n.cur.started.Load() && !n.cur.dead.Load() {
 			in := n.cur
-			in.stopping.Store(true)
-			c.goTracked(func() { in.raft.Stop(); in.stopped.Store(true) })
+			stops = append(stops, stopping{id, in})
+			if !in.stopping.Load() {
+				in.stopping.Store(true)
+				c.goTracked(func() { in.raft.Stop(); in.stopped.Store(true) })
+			}
 		}
 	}
 	// messages parked after the first sweep (senders that were mid-flight)
@@ -611,6 +628,9 @@ func (c *Cluster) Shutdown() {
 	if c.ET()/4 > poll {
 		poll = c.ET() / 4
 	}
+	// Stop() waits for the node's timers (at most two election timeouts) and client futures time
+	// out after at most a few seconds of virtual time; far beyond that, something is stuck.
+	deadline := time.Now().Add(100*c.ET() + time.Minute)
 	for {
 		select {
 		case <-done:
@@ -623,6 +643,19 @@ func (c *Cluster) Shutdown() {
 			return
 		case <-time.After(poll):
 			c.net.ReleaseAll(false, nil)
+			if time.Now().After(deadline) {
+				var stuck []string
+				for _, st := range stops {
+					if !st.in.stopped.Load() {
+						stuck = append(stuck, fmt.Sprintf("%s (Status %s)", st.id, stateName(st.in.raft.Status().State)))
+					}
+				}
+				c.Hang = fmt.Sprintf("Stop() did not return within %v of virtual time on %v", 100*c.ET()+time.Minute, stuck)
+				if len(stuck) == 0 {
+					c.Hang = "background work (client futures / message handlers) did not finish after all nodes were stopped"
+				}
+				return
+			}
 		}
 	}
 }
